@@ -348,7 +348,7 @@ P('C16', claimed=True, level='other',
               'whole are bounded only; in the contracts of its parts the table is an uninterpreted array and the '
               'free lists are ghost events. Bit operations modelled arithmetically with a disjointness side condition.'))
 
-P('C17', claimed=True, level='other', contracts=['base_netaddr_bind', 'synth_node_cmds'], drivers=['vf.drivers.C17'],
+P('C17', claimed=True, level='other', contracts=['base_netaddr_bind', 'synth_node_cmds', 'synth_bus_cmds', 'synth_buffer_cmds'], drivers=['vf.drivers.C17'],
   level_text=('Discharged (pyvc, all ids/flags): BundleNetAddr.__exit__ sends the collected bundle iff the block did '
               'not raise (any exception class); the straight-line node commands send exactly the reference '
               'command once, through the object\'s own server address, with its own node id (and the target\'s), '
@@ -361,12 +361,21 @@ P('C17', claimed=True, level='other', contracts=['base_netaddr_bind', 'synth_nod
               'buffer, sends one /b_free number completion and wipes the object - a second free does nothing; '
               'Server._free_all_buffers puts one /b_free per number of EVERY allocated block (nested loop invariants, '
               'any number of blocks of any size) into one bundle and returns every block. '
+              'The commands with converted argument lists: Node.set/map/mapa/fill (one message, own id, then exactly the '
+              'conversion of the arguments given), Node.release (gate 0 | -1 | -(time+1) on the own id, bundled at the '
+              'server latency), Node.query, Synth.get/getn, ControlBus.get/getn, Buffer.get/getn/query (the one-shot '
+              'responder for the reply - from the object\'s own server, filtered by its id and the index asked for - is '
+              'set up BEFORE the one request goes out; the reply handler, executed symbolically, hands item 3 / items '
+              '4.. / the whole reply to the caller\'s action), ControlBus.setn/setn_at/fill and 17 Buffer commands '
+              '(table-driven: reference command, own number first, the given values in the reference order, completion '
+              'message evaluated once with the buffer, generators with their action responder first); a freed bus or '
+              'buffer refuses with its exception and sends nothing. '
               'Bounded: every message emitted at the single OSC choke point during histories of client-object '
               'operations is checked against grammars written from the Server Command Reference, for '
               'ownership of the ids it mentions, creation/free pairing and bind() atomicity.'),
-  level_note=('Bounded: ~38k histories quick. The emitters that build argument lists dynamically (set, map, setn, '
-              'fill, seti, release, query, constructors, buffers, buses) are outside the provable subset: bounded '
-              'only. In the node command contracts sending is a ghost trace event (encoding is C06/C07).'),
+  level_note=('Bounded: ~38k histories quick. Still bounded only: the emitters that build their argument list in a '
+              'loop or comprehension (setn, seti, mapn/mapan, bus set/set_at/set_pairs, Buffer.write/setn and the list '
+              'transfers) and what the argument conversions produce. In the node command contracts sending is a ghost trace event (encoding is C06/C07).'),
   unreached=['what a real server does with the commands'])
 
 P('C18', claimed=True, level='other',
